@@ -10,7 +10,7 @@ LOGS = sys.argv[1] if len(sys.argv) > 1 else "/tmp/seedlogs"
 
 WHAT = {
     "C01-1": ("Message.should_close: a client 'Connection: keep-alive' is honoured before must_close is looked at",
-              "Transfer-Encoding: gzip|deflate|compress without chunked + Connection: keep-alive + further bytes on the connection"),
+              "Transfer-Encoding: gzip/deflate/compress without chunked + Connection: keep-alive + further bytes on the connection"),
     "C01-2": ("set_body_reader: duplicate Content-Length check uses truthiness of the parsed int",
               "two Content-Length fields where every one before the last is numerically zero"),
     "C02-1": ("status 205 added to the bodiless statuses in is_chunked() and should_close()",
@@ -53,7 +53,7 @@ WHAT = {
               ">=2 listeners ready in one select round, requests each < timeout whose sum exceeds it"),
     "C11-2": ("murder_workers no longer sets worker.aborted (moved to the child's handle_abort)",
               "hung worker that survives SIGABRT: never escalated to SIGKILL"),
-    "C12-1": ("same edit as C06-1 (read_line -2 allowance)", "line length == limit, CR | LF split"),
+    "C12-1": ("same edit as C06-1 (read_line -2 allowance)", "line length == limit, CR / LF split"),
     "C12-2": ("parse_chunk_size cap tests a stale copy of the buffer",
               "chunked body whose chunk-size line never contains CRLF"),
     "C13-1": ("finish_request registers the socket before, and outside, the lock that appends to _keep",
